@@ -1,1 +1,143 @@
+//! C23: percent coding kernels and transport option parsing (child module of zbus::address::transport).
 #![allow(dead_code, unused_imports)]
+use super::{decode_percents, encode_percents};
+use std::fmt::{self, Write as _};
+
+pub fn no_format(_: core::fmt::Arguments<'_>) -> String {
+    String::new()
+}
+
+// ---- reference: D-Bus spec "Server Addresses": the set of optionally-escaped bytes is
+// [-0-9A-Za-z_/.\*]; every other byte must be written as % + two hex digits; decoding accepts
+// optionally-escaped bytes literally and %XX (hex, either case) and nothing else.
+fn optionally_escaped(b: u8) -> bool {
+    matches!(b, b'-' | b'0'..=b'9' | b'A'..=b'Z' | b'a'..=b'z' | b'_' | b'/' | b'.' | b'\\' | b'*')
+}
+fn hexval(b: u8) -> Option<u8> {
+    match b {
+        b'0'..=b'9' => Some(b - b'0'),
+        b'a'..=b'f' => Some(b - b'a' + 10),
+        b'A'..=b'F' => Some(b - b'A' + 10),
+        _ => None,
+    }
+}
+/// Reference decoder into a fixed buffer; None = invalid.
+fn ref_decode(s: &[u8]) -> Option<([u8; 8], usize)> {
+    let mut out = [0u8; 8];
+    let mut n = 0;
+    let mut i = 0;
+    while i < s.len() {
+        let b = s[i];
+        if optionally_escaped(b) {
+            out[n] = b;
+            n += 1;
+            i += 1;
+        } else if b == b'%' {
+            if s.len() - i < 3 {
+                return None;
+            }
+            let h = hexval(s[i + 1])?;
+            let l = hexval(s[i + 2])?;
+            out[n] = (h << 4) | l;
+            n += 1;
+            i += 3;
+        } else {
+            return None;
+        }
+    }
+    Some((out, n))
+}
+
+/// Fixed-capacity fmt sink.
+struct Sink {
+    buf: [u8; 16],
+    len: usize,
+}
+impl fmt::Write for Sink {
+    fn write_str(&mut self, s: &str) -> fmt::Result {
+        let b = s.as_bytes();
+        let mut i = 0;
+        while i < b.len() {
+            if self.len >= 16 {
+                return Err(fmt::Error);
+            }
+            self.buf[self.len] = b[i];
+            self.len += 1;
+            i += 1;
+        }
+        Ok(())
+    }
+}
+struct Enc<'a>(&'a [u8]);
+impl fmt::Display for Enc<'_> {
+    fn fmt(&self, f: &mut fmt::Formatter<'_>) -> fmt::Result {
+        encode_percents(f, self.0)
+    }
+}
+
+/// decode_percents on every ASCII string of up to 4 bytes == reference decoder.
+#[kani::proof]
+#[kani::unwind(7)]
+#[kani::stub(alloc::fmt::format, no_format)]
+fn c23_decode_percents_exact() {
+    let buf: [u8; 4] = kani::any();
+    let len: usize = kani::any();
+    kani::assume(len <= 4);
+    kani::assume(buf[0] < 0x80 && buf[1] < 0x80 && buf[2] < 0x80 && buf[3] < 0x80);
+    let s = unsafe { core::str::from_utf8_unchecked(&buf[..len]) };
+    let r = decode_percents(s);
+    let model = ref_decode(&buf[..len]);
+    match (&r, model) {
+        (Ok(v), Some((out, n))) => {
+            kani::cover!(n == 2 && len == 4, "escape + literal");
+            assert!(v.len() == n, "decoded length differs");
+            let mut i = 0;
+            while i < n {
+                assert!(v[i] == out[i], "decoded byte differs");
+                i += 1;
+            }
+        }
+        (Err(_), None) => {
+            kani::cover!(len == 3 && buf[0] == b'%', "bad escape rejected");
+        }
+        (Ok(_), None) => assert!(false, "decode_percents accepted an invalid escape"),
+        (Err(_), Some(_)) => assert!(false, "decode_percents rejected a valid value"),
+    }
+    core::mem::forget(r);
+}
+
+/// encode_percents of every byte string of up to 3 bytes: output uses only optionally-escaped bytes and %XX,
+/// literal bytes are exactly the optionally-escaped ones, and the reference decoder maps it back to the input.
+#[kani::proof]
+#[kani::unwind(18)]
+#[kani::stub(alloc::fmt::format, no_format)]
+fn c23_encode_percents_roundtrip() {
+    let buf: [u8; 3] = kani::any();
+    let len: usize = kani::any();
+    kani::assume(len <= 3);
+    let mut sink = Sink { buf: [0; 16], len: 0 };
+    let r = write!(sink, "{}", Enc(&buf[..len]));
+    assert!(r.is_ok());
+    // expected length: 1 per optionally-escaped byte, 3 per other byte
+    let mut expect_len = 0;
+    let mut i = 0;
+    while i < len {
+        expect_len += if optionally_escaped(buf[i]) { 1 } else { 3 };
+        i += 1;
+    }
+    assert!(sink.len == expect_len, "encoded length differs from the escaping rule");
+    let back = ref_decode(&sink.buf[..sink.len]);
+    match back {
+        Some((out, n)) => {
+            assert!(n == len);
+            let mut i = 0;
+            while i < len {
+                assert!(out[i] == buf[i], "encode_percents output does not decode to the input");
+                i += 1;
+            }
+        }
+        None => assert!(false, "encode_percents produced an invalid escape sequence"),
+    }
+    kani::cover!(len == 3 && expect_len == 9, "all three bytes escaped");
+    kani::cover!(len == 3 && expect_len == 3, "no byte escaped");
+}
